@@ -83,6 +83,17 @@ def main():
             if is_mm:
                 if got.offset % 16: rec["problems"].append("memory-mapped data start at offset %d (not a multiple of 16)" % got.offset)
                 if got.ctypes.data % min(16, max(1, got.dtype.alignment)): rec["problems"].append("misaligned view")
+            # copy-on-write maps ('c'): what the caller writes into the loaded array stays private, the file keeps the original
+            if mode == "c" and is_mm and got.size and got.flags.writeable and not a.dtype.hasobject:
+                try:
+                    got.view("u1")[...] = 255
+                except (ValueError, TypeError):
+                    got[...] = got[...]          # (views that cannot be reinterpreted: rewrite the same values)
+                got.flush() if hasattr(got, "flush") else None
+                again = joblib.load(path)
+                g3 = again if cs["container"] == "alone" else again[1] if cs["container"] == "list" else again["y"]
+                pb = same(a, g3)
+                if pb and not pb.startswith("NORMALISED"): rec["problems"].append("writing into an array loaded with mmap_mode='c' changed the file: " + pb)
             # through a file object / bytes buffer as well
             if cs["mmap_mode"] == "None":
                 buf = io.BytesIO(); joblib.dump(obj, buf, compress=comp); r2 = joblib.load(io.BytesIO(buf.getvalue()))
